@@ -173,4 +173,70 @@ theorem relabel_refused (m : Mat α) (t' : List String) (h : t'.length ≠ m.tax
 /-- non-vacuity: the four-taxon layout of the crate's unit test -/
 example : (List.range 6).map invIdx = [(1, 0), (2, 0), (2, 1), (3, 0), (3, 1), (3, 2)] := by decide
 
+/-- uniqueness of the row: `T i ≤ k < T (i+1)` determines `i` (for `i ≥ 1`) -/
+theorem row_unique {k i j : Nat} (h1 : T i ≤ k) (h2 : k < T (i + 1)) (g1 : T j ≤ k)
+    (g2 : k < T (j + 1)) : i = j := by
+  apply Classical.byContradiction; intro hne
+  rcases Nat.lt_or_gt_of_ne hne with h | h
+  · have := T_mono (i := i + 1) (j := j) (by omega); omega
+  · have := T_mono (i := j + 1) (j := i) (by omega); omega
+
+/-- **the floating-point inverse index, under an explicit hypothesis about the square root.**
+    `rowvec_to_tril_index` computes `p = floor((sqrt(8k+1) − 1)/2)`, `i = p + 1`, `j = k − p(p+1)/2` in `f64`.  Let `s` be
+    the value the hardware returns for `sqrt(8k+1)`, read as a rational.  The ONLY fact used about it is
+    `∀ m, m ≤ s ↔ m² ≤ 8k+1` — which holds for an IEEE-754 square root whenever `8k+1 < 2^53`: the argument and every
+    integer `m ≤ 2^26` are exactly representable, `sqrt` is correctly rounded, hence monotone and exact on perfect squares.
+    The subtraction of 1, the halving and `floor` are exact on the values that occur (Sterbenz / power of two / integer
+    part), so the computed `p` is the natural number with `2p+1 ≤ s < 2p+3`.  Then the pair the code returns IS the
+    integer inverse `invIdx k`.  (The hypothesis is what the boundary sweep of the harness checks on the real `f64::sqrt`
+    at every triangular-number boundary below 2^50.) -/
+theorem float_inverse_correct (k : Nat) (s : Rat) (hs : ∀ m : Nat, ((m : Nat) : Rat) ≤ s ↔ m * m ≤ 8 * k + 1)
+    (p : Nat) (hp1 : ((2 * p + 1 : Nat) : Rat) ≤ s) (hp2 : ¬ ((2 * p + 3 : Nat) : Rat) ≤ s) :
+    (p + 1, k - p * (p + 1) / 2) = invIdx k := by
+  have a1 : (2 * p + 1) * (2 * p + 1) ≤ 8 * k + 1 := (hs (2 * p + 1)).mp hp1
+  have a2 : ¬ (2 * p + 3) * (2 * p + 3) ≤ 8 * k + 1 := fun h => hp2 ((hs (2 * p + 3)).mpr h)
+  have c1 := T_closed (p + 1)
+  have c2 := T_closed (p + 2)
+  simp only [Nat.add_sub_cancel] at c1
+  have c2' : 2 * T (p + 2) = (p + 2) * (p + 1) := by simpa using c2
+  have b1 : T (p + 1) ≤ k := by
+    have : 2 * T (p + 1) ≤ 2 * k := by
+      rw [c1]
+      have e : (2 * p + 1) * (2 * p + 1) = 4 * ((p + 1) * p) + 1 := by grind
+      omega
+    omega
+  have b2 : k < T (p + 2) := by
+    have : 2 * k < 2 * T (p + 2) := by
+      rw [c2']
+      have e : (2 * p + 3) * (2 * p + 3) = 4 * ((p + 2) * (p + 1)) + 1 := by grind
+      omega
+    omega
+  obtain ⟨r1, r2⟩ := rowOf_spec k
+  have hrow : rowOf k = p + 1 := (row_unique b1 b2 r1 r2).symm
+  have hT : T (p + 1) = p * (p + 1) / 2 := by
+    have : 2 * T (p + 1) = (p + 1) * p := c1
+    have e : p * (p + 1) = (p + 1) * p := Nat.mul_comm _ _
+    omega
+  simp only [invIdx, hrow, hT]
+
+/-- non-vacuity: for `k = 4` (pair (3,1) of the unit test's layout) `s = 5.74…` — any rational in `[5,6)` with the stated
+    property, e.g. `23/4` — gives `p = 2` -/
+example : (∀ m : Nat, ((m : Nat) : Rat) ≤ (23 / 4 : Rat) ↔ m * m ≤ 8 * 4 + 1) := by
+  intro m
+  constructor
+  · intro h
+    have : m ≤ 5 := by
+      apply Classical.byContradiction; intro hn
+      have h6 : (6 : Rat) ≤ (m : Rat) := by exact_mod_cast (by omega : 6 ≤ m)
+      have : (6 : Rat) ≤ 23 / 4 := Rat.le_trans h6 h
+      exact absurd this (by decide +kernel)
+    have : m * m ≤ 25 := Nat.mul_le_mul this this
+    omega
+  · intro h
+    have : m ≤ 5 := by
+      apply Classical.byContradiction; intro hn
+      have : 6 * 6 ≤ m * m := Nat.mul_le_mul (by omega) (by omega)
+      omega
+    have h5 : ((m : Nat) : Rat) ≤ (5 : Rat) := by exact_mod_cast this
+    exact Rat.le_trans h5 (by decide +kernel)
 end C13
